@@ -603,6 +603,37 @@ pub fn random_term(rng: &mut Rng, d: usize, pool: &Pool) -> T {
     }
 }
 
+/// Operands that share a compound sub-term: f(R) op g(R) with f, g loops over the same body R (the
+/// hash-consed body is the very same object in both operands, which is what rules about "the same
+/// body" key on), R ambiguous in its number of repetitions.
+pub fn shared_subterm_family(pool: &Pool) -> Vec<T> {
+    let (a, bb) = (T::Chr(pool.a), T::Chr(pool.b));
+    let bodies: Vec<T> = vec![
+        T::Alt2(b(&a), b(&T::Str(vec![pool.a, pool.a]))),
+        T::Cat2(b(&a), b(&T::All)),
+        T::AltL(vec![a.clone(), bb.clone(), T::Str(vec![pool.a, pool.b])]),
+        T::Str(vec![pool.a, pool.b]),
+        T::Rng(pool.a, pool.b),
+        T::Cat2(b(&T::Opt(b(&a))), b(&bb)),
+    ];
+    let ranges: [(u32, Option<u32>); 8] =
+        [(2, Some(2)), (3, Some(3)), (1, Some(2)), (2, Some(3)), (0, Some(1)), (2, None), (3, None), (0, None)];
+    let mut v = vec![];
+    for r in &bodies {
+        for (k, &(i1, j1)) in ranges.iter().enumerate() {
+            for &(i2, j2) in ranges[k..].iter() {
+                let (x, y) = (T::Loop(b(r), i1, j1), T::Loop(b(r), i2, j2));
+                v.push(T::And2(b(&x), b(&y)));
+                v.push(T::Diff1(b(&x), b(&y)));
+                v.push(T::Diff1(b(&y), b(&x)));
+                v.push(T::Alt2(b(&x), b(&y)));
+                v.push(T::AndL(vec![y.clone(), T::All, x.clone()]));
+            }
+        }
+    }
+    v
+}
+
 /// Derivatives used as operands of further constructions: a caller may feed what char_derivative
 /// returned to any constructor; the result must denote the construction over the left quotient.
 pub fn quotient_family(pool: &Pool) -> Vec<T> {
